@@ -121,6 +121,15 @@ CHECKS["C08"] = {
     "design_ref": "§7 C08",
 }
 
+CHECKS["C15"] = {
+    "category": "model_checking",
+    "technique": "TLA+ Limiter.tla (lazy token bucket with delayed consumption) checked by TLC; TLC evaluation of WindowBound / Fifo / CancelNeutral on recorded histories of the real Limiter on a manual clock",
+    "text": "Model: every interleaving of calls, grants, cancels, drops and ticks (WindowBound, Fifo, bucket sanity). Code: seeded scripts run twice (with and "
+            "without the cancelled calls) on the real limiter; the window bound, arrival-order service and cancel-neutrality are evaluated by TLC on the grant histories.",
+    "note": "PARTIAL: the limiter half of the property only; the per-connection / per-RPC half (rpc::Service over mux, in-flight cap) has no harness. Manual clock, single-threaded runtime.",
+    "design_ref": "§7 C15",
+}
+
 NOT_YET = "check not built yet (construction in progress; see DESIGN.md §11 build order)"
 NA_REASONS = {}
 
